@@ -76,6 +76,14 @@ type FuncContract struct {
 	Callbacks    []string
 	CallbackRank map[string]int // ranks of traced callbacks (ghost event trace)
 	Ghosts       []*GhostVar
+	GhostUpdates []GhostUpdate // in textual order
+}
+
+type GhostUpdate struct {
+	Loop int
+	End  bool
+	Name string
+	Expr Expr
 }
 
 // GhostVar is a specification-only variable: "ghost name sort = init"; it is updated at loop heads by
@@ -266,6 +274,7 @@ func ParseContractFile(path, pkg string) (*ContractFile, error) {
 								} else {
 									g.Updates[n] = e
 								}
+								cur.GhostUpdates = append(cur.GhostUpdates, GhostUpdate{Loop: n, End: c.Kind == "ghost-end", Name: g.Name, Expr: e})
 								found = true
 							}
 						}
